@@ -1,13 +1,200 @@
 (** C14 — fault-injection parameters hit exactly the scheduled requests.
-    Only statements; the proofs are in theories/FaultProofs.v. *)
-From Verif Require Import GoSem Timeline Fault.
+    Only statements; every proof is [exact <lemma>] (lemmas in theories/FaultProofs.v and
+    theories/FaultLossProofs.v, model in theories/Fault.v on top of theories/Timeline.v).
 
-(** Placeholder while the proofs are being written: the model computes the documented example
-    (cycle 8 s, rsq 1 on 4 x 2 s segments hits 37, 41, 45). *)
+    Notation of the statements: [S r n] / [E r n] start and end (ticks) of segment n of the looped
+    timeline counted from availabilityStartTime; [cycleStart r cycle n] =
+    floor(S n / (cycle*ts)) * (cycle*ts), the start of the cycle in which segment n starts;
+    [firstInCycle r cycle n] the first segment of that cycle; [scheduleCode r codes rep n] the code
+    of the first pattern (in order) whose representation filter matches and whose rsq equals
+    n - firstInCycle, 0 if none; [scheduled ... base] that code, or the answer [base] the request
+    gets without the parameter.  [goodCode r ss]: cycle > 0, cycle*ts < 2^63, E 0 <= cycle*ts. *)
+From Verif Require Import GoSem Timeline TimelineProofs Fault FaultProofs FaultLossProofs.
+
+(** ** statuscode_ *)
+
+(** The first segment of a cycle is min{m | S m >= cycle start}, and it is not after n. *)
+Theorem C14_first_in_cycle : forall r loopMS cycle n,
+  wf r loopMS -> 0 < cycle -> 0 <= n ->
+  0 <= firstInCycle r cycle n <= n /\
+  forall j, 0 <= j -> (cycleStart r cycle n <= S r j <-> firstInCycle r cycle n <= j).
+Proof. exact firstInCycle_min. Qed.
+Print Assumptions C14_first_in_cycle.
+
+(** findLastSegNr (the last number of the timeline generated at an instant with a 60 s window) is
+    the last segment that has ended at that instant. *)
+Theorem C14_last_nr : forall r loopMS, wf r loopMS -> forall c nowMS,
+  startS c = 0 -> 0 <= nowMS -> repDuration r < two64 -> E r 0 <= nowMS * ts r / 1000 ->
+  let L := findLastSegNr r loopMS c nowMS in
+  0 <= L /\ E r L <= nowMS * ts r / 1000 < E r (L + 1).
+Proof. exact findLastSegNr_spec. Qed.
+Print Assumptions C14_last_nr.
+
+(** calcStatusCode computes the schedule (start = 0, startNumber = 0, every pattern good). *)
+Theorem C14_status_spec : forall r loopMS, wf r loopMS -> forall c codes repID n nr,
+  startS c = 0 -> startNr c = 0 -> repDuration r < two64 -> Forall (goodCode r) codes -> 0 <= n ->
+  S r n < two63 -> ts r < two32 -> nr = n ->
+  calcStatusCode r loopMS c codes repID (metaOf r c n nr) = Ok (scheduleCode r codes repID n).
+Proof. exact calcStatusCode_spec. Qed.
+Print Assumptions C14_status_spec.
+
+(** A request by $Number$ for segment n (video, or audio: audio uses the reference video segment
+    with the same number): while the segment is available the answer is the scheduled code, or
+    exactly the answer without the parameter; too early / gone are answered as without it. *)
+Theorem C14_status_number : forall r loopMS, wf r loopMS -> forall c codes repID audio n now base,
+  startS c = 0 -> startNr c = 0 -> repDuration r < two64 -> Forall (goodCode r) codes -> codes <> [] ->
+  0 <= n < two32 -> S r n < two63 -> ts r < two32 -> 0 <= now ->
+  segAnswer r loopMS c codes repID audio ByNumber n now base =
+  timedAnswer (checkTime (E r n) (ts r) now (tsbdS c) (ato c)) (scheduled r codes repID n base).
+Proof. exact segAnswer_number. Qed.
+Print Assumptions C14_status_number.
+
+(** The same for a video request by $Time$. *)
+Theorem C14_status_time : forall r loopMS, wf r loopMS -> forall c codes repID n now base,
+  startS c = 0 -> startNr c = 0 -> repDuration r < two64 -> Forall (goodCode r) codes -> codes <> [] ->
+  0 <= n < two32 -> S r n < two63 -> ts r < two32 -> 0 <= now ->
+  segAnswer r loopMS c codes repID None ByTime (S r n) now base =
+  timedAnswer (checkTime (E r n) (ts r) now (tsbdS c) (ato c)) (scheduled r codes repID n base).
+Proof. exact segAnswer_time. Qed.
+Print Assumptions C14_status_time.
+
+(** One pattern: the code if and only if the representation matches and n is the rsq-th segment
+    among those starting in its cycle; otherwise the normal answer. *)
+Theorem C14_status_iff : forall r ss repID n base,
+  scheduled r [ss] repID n base =
+  if repInReps repID (sc_reps ss) && (n - firstInCycle r (sc_cycle ss) n =? sc_rsq ss)
+  then (if sc_code ss =? 0 then base else sc_code ss) else base.
+Proof. exact scheduled_single. Qed.
+Print Assumptions C14_status_iff.
+
+(** Refuted outside these hypotheses (witnesses reproduced on the code, known_findings c14-...):
+    a start time, a start number, a cycle shorter than the first segment, a cycle whose length in
+    ticks wraps to 0. *)
+Theorem C14_start_refuted :
+  wf w_rep2 8000 /\ goodCode w_rep2 (w_code 8 1 404) /\ goodCode w_rep2 (w_code 30 1 404) /\
+  segAnswer w_rep2 8000 (w_cfg 30 0) [w_code 8 1 404] "V300" None ByNumber 4 40037 200
+    = APanic "findSegStartTime: index out of range" /\
+  scheduleCode w_rep2 [w_code 30 1 404] "V300" 31 = 404 /\
+  segAnswer w_rep2 8000 (w_cfg 30 0) [w_code 30 1 404] "V300" None ByNumber 31 94037 200 = AStatus 200.
+Proof. exact start_refuted. Qed.
+Print Assumptions C14_start_refuted.
+
+Theorem C14_snr_refuted :
+  wf w_rep2 8000 /\ goodCode w_rep2 (w_code 8 1 404) /\
+  segAnswer w_rep2 8000 (w_cfg 0 7) [w_code 8 1 404] "V300" None ByNumber 7 2037 200
+    = APanic "findSegStartTime: index out of range" /\
+  scheduleCode w_rep2 [w_code 8 1 404] "V300" 9 = 404 /\
+  segAnswer w_rep2 8000 (w_cfg 0 7) [w_code 8 1 404] "V300" None ByNumber 16 20037 200 = AStatus 200.
+Proof. exact snr_refuted. Qed.
+Print Assumptions C14_snr_refuted.
+
+Theorem C14_short_cycle_refuted :
+  wf w_rep6 12000 /\ wf w_rep8 8000 /\
+  ~ goodCode w_rep6 (w_code 5 0 400) /\ ~ goodCode w_rep8 (w_code 3 0 500) /\
+  segAnswer w_rep6 12000 (w_cfg 0 0) [w_code 5 0 400] "V300" None ByNumber 1 12037 200
+    = APanic "findSegStartTime: index out of range" /\
+  scheduleCode w_rep8 [w_code 3 0 500] "V300" 1 = 500 /\
+  segAnswer w_rep8 8000 (w_cfg 0 0) [w_code 3 0 500] "V300" None ByNumber 1 16037 200 = AStatus 200 /\
+  scheduleCode w_rep8 [w_code 3 1 599] "V300" 1 = 0 /\
+  segAnswer w_rep8 8000 (w_cfg 0 0) [w_code 3 1 599] "V300" None ByNumber 1 16037 200 = AStatus 599.
+Proof. exact short_cycle_refuted. Qed.
+Print Assumptions C14_short_cycle_refuted.
+
+Theorem C14_cycle_wrap_refuted :
+  ~ goodCode w_rep2 (w_code 1152921504606846976 38 404) /\
+  segAnswer w_rep2 8000 (w_cfg 0 0) [w_code 1152921504606846976 38 404] "V300" None ByNumber 38 78037 200
+    = APanic "calcStatusCode: integer divide by zero".
+Proof. exact cycle_wrap_refuted. Qed.
+Print Assumptions C14_cycle_wrap_refuted.
+
+(** ** traffic_ *)
+
+(** Parsing what was written gives the intervals back (positive durations below 2^63). *)
+Theorem C14_loss_parse : forall l, Forall goodItvl l -> createLossItvls (printItvls l) = Ok l.
+Proof. exact createLossItvls_print. Qed.
+Print Assumptions C14_loss_parse.
+
+(** Whatever is accepted has a state and a non-zero duration in every interval, and the list is
+    empty exactly for the strings without a state letter (the defect below). *)
+Theorem C14_loss_accepts : forall p l, createLossItvls p = Ok l ->
+  Forall okItvl l /\ (l = [] <-> Forall (fun ch => letterState ch = None) p).
+Proof. exact createLossItvls_ok. Qed.
+Print Assumptions C14_loss_accepts.
+
+(** StateAt l s is the state at position s mod cycle of the interval sequence written out second
+    by second, for every second s >= 0; the cycle is the sum of the durations. *)
+Theorem C14_state_at : forall l s, goodItvls l -> l <> [] -> 0 <= s ->
+  stateAt l s = Ok (nth (Z.to_nat (s mod sumDur l)) (flatten l) LUnknown)
+  /\ 0 < sumDur l /\ Z.of_nat (length (flatten l)) = sumDur l.
+Proof. exact stateAt_spec. Qed.
+Print Assumptions C14_state_at.
+
+Theorem C14_state_periodic : forall l s k, goodItvls l -> l <> [] -> 0 <= s -> 0 <= k ->
+  stateAt l (s + k * sumDur l) = stateAt l s.
+Proof. exact stateAt_periodic. Qed.
+Print Assumptions C14_state_periodic.
+
+(** One BaseURL per pattern, bu0/ bu1/ ... in order; bu<i> as first element of the segment path
+    selects pattern i, is removed from the path, and the request is answered according to the
+    state of pattern i at second nowMS/1000: up = goes on unchanged, down = 404, slow = goes on
+    after 2 s, hang = 503 after 10 s. *)
+Theorem C14_baseurls : forall traffic,
+  length (mpdBaseURLs traffic) = length traffic /\
+  forall i, (i < length traffic)%nat -> nth i (mpdBaseURLs traffic) EmptyString = baseURL (Z.of_nat i).
+Proof. exact mpdBaseURLs_spec. Qed.
+Print Assumptions C14_baseurls.
+
+Theorem C14_baseurl_selects : forall i rest, 0 <= i < two63 ->
+  extractPattern ("/" ++ baseURL i ++ rest) = Ok (i, ("/" ++ rest)%string).
+Proof. exact extractPattern_baseURL. Qed.
+Print Assumptions C14_baseurl_selects.
+
+Theorem C14_traffic_step : forall traffic i rest nowMS itvls,
+  0 <= i < two63 -> nthZ i traffic = Some itvls ->
+  trafficStep traffic ("/" ++ baseURL i ++ rest) nowMS =
+  match stateAt itvls (Z.quot nowMS 1000) with
+  | Panic s => TrPanic s
+  | Err _ => TrStatus 500 0
+  | Ok LNo => TrContinue ("/" ++ rest) 0
+  | Ok L404 => TrStatus 404 0
+  | Ok LSlow => TrContinue ("/" ++ rest) 2
+  | Ok LHang => TrStatus 503 10
+  | Ok LUnknown => TrStatus 500 0
+  end.
+Proof. exact trafficStep_baseURL. Qed.
+Print Assumptions C14_traffic_step.
+
+Theorem C14_empty_pattern_refuted :
+  createLossItvls (bytesOf "12") = Ok [] /\ createLossItvls [] = Ok [] /\
+  stateAt [] 3000 = Panic "LossItvls.StateAt: integer divide by zero" /\
+  createAllLossItvls (bytesOf "u10,") = Ok [[{| l_dur := 10; l_state := LNo |}]; []] /\
+  mpdBaseURLs [[{| l_dur := 10; l_state := LNo |}]; []] = ["bu0/"; "bu1/"] /\
+  trafficStep [[{| l_dur := 10; l_state := LNo |}]; []] "/bu1/V300/1498.m4s" 3000000
+    = TrPanic "LossItvls.StateAt: integer divide by zero".
+Proof. exact empty_pattern_refuted. Qed.
+Print Assumptions C14_empty_pattern_refuted.
+
+Theorem C14_loss_overflow_refuted :
+  createLossItvls (bytesOf "u9223372036854775808") = Ok [{| l_dur := -9223372036854775808; l_state := LNo |}] /\
+  createLossItvls (bytesOf "u18446744073709551617") = Ok [{| l_dur := 1; l_state := LNo |}].
+Proof. exact loss_overflow_refuted. Qed.
+Print Assumptions C14_loss_overflow_refuted.
+
+(** Non-vacuity.  statuscode_[{cycle:5,rsq:1,code:404}] on 4 x 2 s segments (cycle not divisible by
+    the segment duration): cycles start at 0, 5, 10, 15 s; their first segments are 0, 3, 5, 8;
+    the hypotheses of the theorems hold and the scheduled segments of the first four cycles are
+    1, 4, 6, 9.  traffic_u2d1s1: the states of seconds 0..7. *)
 Example C14_example :
-  let r := {| segs := [ {| st := 0; en := 180000; snr := 1 |}; {| st := 180000; en := 360000; snr := 2 |};
-               {| st := 360000; en := 540000; snr := 3 |}; {| st := 540000; en := 720000; snr := 4 |} ]; ts := 90000 |} in
-  let c := {| startS := 0; startNr := 0; tsbdS := 60; ato := Some 0 |} in
-  map (fun n => segAnswer r 8000 c [{| sc_cycle := 8; sc_rsq := 1; sc_code := 404; sc_reps := [] |}] "V300" None ByNumber n 100000 200)
-      [36; 37; 38; 39; 40; 41] = [AStatus 200; AStatus 404; AStatus 200; AStatus 200; AStatus 200; AStatus 404].
-Proof. vm_compute. reflexivity. Qed.
+  wf w_rep2 8000 /\ goodCode w_rep2 (w_code 5 1 404) /\
+  map (firstInCycle w_rep2 5) [0; 1; 2; 3; 4; 5; 6; 7; 8; 9] = [0; 0; 0; 3; 3; 5; 5; 5; 8; 8] /\
+  map (fun n => segAnswer w_rep2 8000 (w_cfg 0 0) [w_code 5 1 404] "V300" None ByNumber n (2000 * n + 2037) 200)
+      [0; 1; 2; 3; 4; 5; 6; 7; 8; 9]
+  = map AStatus [200; 404; 200; 200; 404; 200; 404; 200; 200; 404] /\
+  (do l <- createLossItvls (bytesOf "u2d1s1"); mapRes (stateAt l) [0; 1; 2; 3; 4; 5; 6; 7])
+  = Ok [LNo; LNo; L404; LSlow; LNo; LNo; L404; LSlow] /\
+  goodItvls [{| l_dur := 2; l_state := LNo |}; {| l_dur := 1; l_state := L404 |}; {| l_dur := 1; l_state := LSlow |}].
+Proof.
+  split; [exact w_rep2_wf|]. split; [repeat split; cbn; unfold two63; lia|].
+  split; [vm_compute; reflexivity|]. split; [vm_compute; reflexivity|]. split; [vm_compute; reflexivity|].
+  split; [repeat constructor; cbn; lia|vm_compute; reflexivity].
+Qed.
